@@ -15,9 +15,10 @@ import (
 // belonging to the module it was created in.
 
 type linkRow struct {
-	name string
-	mods map[string]string
-	want string
+	name  string
+	mods  map[string]string
+	want  string
+	entry string // "" = main
 }
 
 var linkRows = []linkRow{
@@ -36,6 +37,21 @@ var linkRows = []linkRow{
 	{name: "builtin-import-vs-private-function-elsewhere", want: "lib 7 8\nmain ok 5\n", mods: map[string]string{
 		"main": "import assert_eq from testing;\nimport { helper } from lib;\nfn main() { assert_eq(1, 1); println(\"main ok\", helper()); }\n",
 		"lib":  "fn assert_eq(a: int, b: int) { println(\"lib\", a, b); }\npub fn helper() -> int { assert_eq(7, 8); 5 }\nfn main() {}\n"}},
+	// what the HOST invokes by name (main, event functions) belongs to the entry module, whatever the other modules
+	// export and however their names sort against the entry's
+	{name: "library-exports-main-and-sorts-behind-the-entry", want: "entry main 5\n", mods: map[string]string{
+		"main": "import { helper } from util;\nfn main() { println(\"entry main\", helper()); }\n",
+		"util": "pub fn helper() -> int { 5 }\npub fn main() { println(\"util main\"); }\n"}},
+	{name: "library-exports-main-and-sorts-before-the-entry", want: "entry main 5\n", mods: map[string]string{
+		"main": "import { helper } from lib;\nfn main() { println(\"entry main\", helper()); }\n",
+		"lib":  "pub fn helper() -> int { 5 }\npub fn main() { println(\"lib main\"); }\n"}},
+	{name: "two-libraries-export-main-around-the-entry", want: "entry 1 2\n", mods: map[string]string{
+		"main": "import { one } from aaa;\nimport { two } from zzz;\nlet tag = \"entry\";\nfn main() { println(tag, one(), two()); }\n",
+		"aaa":  "let tag = \"aaa\";\npub fn one() -> int { 1 }\npub fn main() { println(tag); }\n",
+		"zzz":  "let tag = \"zzz\";\npub fn two() -> int { 2 }\npub fn main() { println(tag); }\n"}},
+	{name: "entry-is-not-called-main-and-sorts-first", want: "entry 7\n", entry: "app", mods: map[string]string{
+		"app":  "import { seven } from main;\nfn main() { println(\"entry\", seven()); }\n",
+		"main": "pub fn seven() -> int { 7 }\npub fn main() { println(\"library called main\"); }\n"}},
 	{name: "closure-callback-calls-back-into-the-library", want: "100 1\n", mods: map[string]string{
 		"main": "import { run, get, bump } from b;\nlet counter = 100;\nfn main() { let cb = fn() { bump(); }; run(cb); println(counter, get()); }\n",
 		"b":    "let counter = 0;\npub fn bump() { counter += 1; }\npub fn run(cb: fn() -> null) { cb(); }\npub fn get() -> int { counter }\nfn main() {}\n"}},
@@ -145,7 +161,11 @@ func TestTableLinking(t *testing.T) {
 				cur = ""
 			}
 		}
-		c := px.ProgCase{Modules: r.mods, Entry: "main", Limits: sb.DefaultLimits(), Note: "linking " + r.name,
+		entry := "main"
+		if r.entry != "" {
+			entry = r.entry
+		}
+		c := px.ProgCase{Modules: r.mods, Entry: entry, Limits: sb.DefaultLimits(), Note: "linking " + r.name,
 			Expect: &px.Exp{Writes: writes, Outcome: hs.Outcome{Class: "ok"}}}
 		pk.Eval()
 		pk.NonTrivial(c.Note, map[string]any{"row": r.name})
